@@ -301,6 +301,19 @@ class MoleculeSampler:
                           order = int(bonding[-1]))
         molecule.nodes[source_node]['bonding'].remove(bonding)
         molecule.nodes[correspondence[target_node]]['bonding'].remove(compl_bonding)
+        # the new bond takes the place of a hydrogen atom on both of its
+        # atoms; the aromaticity correction that runs before the hydrogen
+        # atoms are rebuilt relies on this count (same as in the resolver)
+        for bonded_node in (source_node, correspondence[target_node]):
+            # coarse beads and single hydrogen atoms carry no count
+            if 'hcount' not in molecule.nodes[bonded_node]:
+                continue
+            hcount = molecule.nodes[bonded_node]['hcount']
+            if molecule.nodes[bonded_node].get('aromatic', False):
+                hcount = max(0, hcount - 1.5)
+            else:
+                hcount = max(0, hcount - 1)
+            molecule.nodes[bonded_node]['hcount'] = hcount
 
         # here we deal with stochastic termination of branches
         # we added a terminal fragments so we remove all other
